@@ -383,49 +383,7 @@ theorem tie_src_core_BeaconProcess_StartBeacon : Gen.ScriptsC13.core_BeaconProce
   "}"
 ] := rfl
 
-/-- two reviewed texts: the as-is start-up path, and the one that reconciles the key files with the completed DKG record
-before `bp.Load` (reports/crash2_fix_1.diff); which one the tree has is `Gen.startupVariant` -/
-theorem tie_src_core_DrandDaemon_LoadBeaconFromStore :
-    Gen.ScriptsC13.core_DrandDaemon_LoadBeaconFromStore = [
-  "func (dd *DrandDaemon) LoadBeaconFromStore(ctx context.Context, beaconID string, store key.Store) (*BeaconProcess, error) {",
-  " bp, err := dd.InstantiateBeaconProcess(ctx, beaconID, store)",
-  " if err != nil {",
-  "  return nil, err",
-  " }",
-  " status, err := dd.dkg.DKGStatus(ctx, &pdkg.DKGStatusRequest{BeaconID: beaconID})",
-  " if err != nil {",
-  "  return nil, err",
-  " }",
-  " freshRun := status.Complete == nil",
-  " if freshRun {",
-  "  g, err := store.LoadGroup()",
-  "  if err != nil && !errors.Is(err, fs.ErrNotExist) {",
-  "   return nil, err",
-  "  }",
-  "  if g == nil {",
-  "   return bp, nil",
-  "  }",
-  "  if gFP := key.GroupFilePath(store); gFP != \"\" {",
-  "  }",
-  "  share, err := store.LoadShare()",
-  "  if err != nil {",
-  "   return nil, err",
-  "  }",
-  "  if err := dd.dkg.Migrate(beaconID, g, share); err != nil {",
-  "   return nil, err",
-  "  }",
-  " }",
-  " if err := bp.Load(ctx); err != nil {",
-  "  return nil, err",
-  " }",
-  " dd.AddBeaconHandler(ctx, beaconID, bp)",
-  " err = bp.StartBeacon(ctx, true)",
-  " if err != nil {",
-  " }",
-  " return bp, err",
-  "}"
-] ∨
-    Gen.ScriptsC13.core_DrandDaemon_LoadBeaconFromStore = [
+theorem tie_src_core_DrandDaemon_LoadBeaconFromStore : Gen.ScriptsC13.core_DrandDaemon_LoadBeaconFromStore = [
   "func (dd *DrandDaemon) LoadBeaconFromStore(ctx context.Context, beaconID string, store key.Store) (*BeaconProcess, error) {",
   " bp, err := dd.InstantiateBeaconProcess(ctx, beaconID, store)",
   " if err != nil {",
@@ -465,14 +423,9 @@ theorem tie_src_core_DrandDaemon_LoadBeaconFromStore :
   " }",
   " return bp, err",
   "}"
-] := by
-  first | exact Or.inl rfl | exact Or.inr rfl
+] := rfl
 
-/-- absent on a tree with the as-is start-up path; otherwise exactly the reviewed text `reconcileOps` mirrors -/
-theorem tie_src_core_DrandDaemon_reconcileKeyFiles :
-    Gen.ScriptsC13.core_DrandDaemon_reconcileKeyFiles = [
-] ∨
-    Gen.ScriptsC13.core_DrandDaemon_reconcileKeyFiles = [
+theorem tie_src_core_DrandDaemon_reconcileKeyFiles : Gen.ScriptsC13.core_DrandDaemon_reconcileKeyFiles = [
   "func (dd *DrandDaemon) reconcileKeyFiles(beaconID string, bp *BeaconProcess, store key.Store) error {",
   " done, err := dd.dkg.LastCompleted(beaconID)",
   " if err != nil || done == nil {",
@@ -500,14 +453,9 @@ theorem tie_src_core_DrandDaemon_reconcileKeyFiles :
   " }",
   " return store.SaveShare(done.KeyShare)",
   "}"
-] := by
-  first | exact Or.inl rfl | exact Or.inr rfl
+] := rfl
 
-/-- absent on a tree with the as-is start-up path; otherwise a read of the finished record -/
-theorem tie_src_dkg_Process_LastCompleted :
-    Gen.ScriptsC13.dkg_Process_LastCompleted = [
-] ∨
-    Gen.ScriptsC13.dkg_Process_LastCompleted = [
+theorem tie_src_dkg_Process_LastCompleted : Gen.ScriptsC13.dkg_Process_LastCompleted = [
   "func (d *Process) LastCompleted(beaconID string) (*ExecutionOutput, error) {",
   " finished, err := d.store.GetFinished(beaconID)",
   " if err != nil || finished == nil || finished.FinalGroup == nil || finished.FinalGroup.PublicKey == nil || finished.KeyShare == nil {",
@@ -515,8 +463,7 @@ theorem tie_src_dkg_Process_LastCompleted :
   " }",
   " return &ExecutionOutput{FinalGroup: finished.FinalGroup, KeyShare: finished.KeyShare}, nil",
   "}"
-] := by
-  first | exact Or.inl rfl | exact Or.inr rfl
+] := rfl
 
 theorem tie_src_key_Save : Gen.ScriptsC13.key_Save = [
   "func Save(filePath string, t Tomler, secure bool) error {",
